@@ -137,12 +137,12 @@ func run(raw json.RawMessage) lib.Case {
 		o = runHere(&in)
 	}
 	class := in.Class
-	if in.UnauthOk {
-		class += ":unauthok"
-	}
 	if tags := defectTags(&in); tags != "" {
 		// one class per defect pattern, whatever generator produced the input
 		class = in.Role + tags
+	}
+	if in.UnauthOk {
+		class += ":unauthok"
 	}
 	if o.Discard != "" {
 		return lib.Case{Discard: true, Class: class, Obs: o}
